@@ -126,8 +126,9 @@ def shards(tier: str, seed: int):
         else:
             kinds = ["flip", "trunc", "del", "ins", "sub"]
         for k in kinds:
-            for part in range(4 if (dh or tier == "thorough") and k in ("flip", "ins") else 1):
-                out.append(["simple", b.bid, k, part, 4 if (dh or tier == "thorough") and k in ("flip", "ins") else 1])
+            nparts = {"flip": 4, "ins": 2}.get(k, 1) * (2 if tier == "thorough" and dh else 1)
+            for part in range(nparts):
+                out.append(["simple", b.bid, k, part, nparts])
         out.append(["der", b.bid])
         out.append(["kid", b.bid])
     for part in range(8):
